@@ -125,7 +125,7 @@ func runScenario(c *vf.Case, kind zoo.Kind) {
 	}
 
 	// ---- hostile inputs alternating with probes -----------------------------------
-	n := 60
+	n := 100
 	if c.Tier == "thorough" {
 		n = 300
 	}
